@@ -75,6 +75,12 @@ Coverage.  Every Name, Attribute, import statement and function of the source is
 dead interpreter-version branch, or in an annotation that is never evaluated); `coverage` per module, checked
 against an independent ast.walk count by the harness.
 
+Locals that are certainly unbound (class DeadLoads below).  Per function, a definite-UNassignment analysis of its own
+scope: a read (or `del`) of a local that is unbound on every path from the function's entry -- after the end of
+`except E as x:` (x is deleted there, however the clause is left), after `del x`, before any binding -- is a
+`dead_loads` fact (module, function, variable, line, cause); rendered as `Gen.currentDeadLoads`.  Conditionally
+bound locals are never listed.
+
 A local that only import statements bind gets an identifier of its own (`lena (local)`): reading it where no import
 has certainly bound it is an UnboundLocalError (a NameError), never a read of the module's global of the same name.
 
@@ -1313,6 +1319,8 @@ class ModuleTranslator:
         self.coverage = cov
         self.table = self.static_table(tree)
         self.maybe_unbound = self.load_fast_checks(src)
+        # loads of locals that are certainly unbound where they are read (after `except .. as`, `del`, before any binding)
+        self.dead_loads = dead_local_loads(tree, self.static_test)
         for node in ast.walk(tree):
             if isinstance(node, ast.Call) and isinstance(node.func, ast.Attribute) \
                     and isinstance(node.func.value, ast.Name) and node.func.value.id == "__all__":
@@ -1413,6 +1421,8 @@ class Translator:
                         and not any((m, q, v) in AUDITED_MAYBE_UNBOUND for v in per_fn[q]):
                     reason = AUDITED_MAYBE_UNBOUND[known[per_fn[q].index(var)]] + " (matched by position: renamed)"
                 maybe.append({"mod": m, "fn": q, "var": var, "audited": reason is not None, "reason": reason})
+        self.dead = [{"mod": m, "fn": q, "var": var, "line": line, "cause": cause}
+                     for m in modnames for q, var, line, cause in getattr(self.mts[m], "dead_loads", [])]
         return classes, raises, maybe
 
     def ext_id(self, top):
@@ -1507,6 +1517,8 @@ class Translator:
             r["mod_id"], r["fn_id"], r["what_ids"] = self.modid[r["mod"]], self.intern(r["fn"]), ref_ids(r["what"])
         for u in maybe:
             u["mod_id"], u["fn_id"], u["var_id"] = self.modid[u["mod"]], self.intern(u["fn"]), self.intern(u["var"])
+        for u in self.dead:
+            u["mod_id"], u["fn_id"], u["var_id"] = self.modid[u["mod"]], self.intern(u["fn"]), self.intern(u["var"])
         priv = [i for i, s in enumerate(self.intern.names) if s.startswith("_")]
         # the environments: which third-party modules of import-time code cannot be imported
         always = sum(1 << i for i, x in enumerate(self.ext) if x in PY2_ONLY)
@@ -1523,7 +1535,7 @@ class Translator:
         return {"repo": str(self.repo), "source_hash": hasher.hexdigest(), "names": self.intern.names,
                 "n_bindable": self.n_bindable, "ext": list(self.ext), "envs": envs, "venv_env": venv_env,
                 "slot_bits": (len(mods) + 2).bit_length(), "classes": classes, "raises": raises,
-                "maybe_unbound": maybe,
+                "maybe_unbound": maybe, "dead_loads": self.dead,
                 "exc_root": next((i for i, c in enumerate(classes) if c["is_lena_exc"] and c["name"] == "LenaException"),
                                  None),
                 "always_absent": [x for x in self.ext if x in PY2_ONLY],
@@ -1584,6 +1596,369 @@ def _renumber(self, mods, n_builtins):
 
 
 Translator.renumber = _renumber
+
+
+# ------------------------------------------------------------------------------------------------------------
+# Locals that are CERTAINLY unbound where they are read (UnboundLocalError, a NameError)
+
+class DeadLoads:
+    """Definite-UNassignment analysis of one function (its own scope only).
+
+    State of a local: U (unbound on every path that reaches this point), B (bound on every path), M (anything
+    else).  Entry: parameters B, every other local U.  A binding (assignment, for / with / import / def / class /
+    walrus target) gives B; `del x` gives U; the end of `except E as x:` -- normal, by an exception, by break /
+    continue -- gives U (Python 3 deletes the name there).  Joins keep U only when all the joined paths say U.
+    Exceptional paths (a handler's entry, a `finally:`, what a `with` statement swallows) see M for every name
+    that the protected statements bind or delete.  Unreachable code (after return / raise / break / continue) has
+    no state and is not looked at.  Left out: names a nested function declares `nonlocal`, class bodies, lambda
+    bodies, generator-expression bodies (run later), comprehension variables.
+
+    A load (or `del`) of a local in state U fails whenever it is reached: that is the only thing reported --
+    a conditionally bound local (M) never is.  cause: 0 the name was unbound by `except ... as`, 1 by `del`,
+    2 nothing has bound it yet."""
+    U, B, M = 0, 1, 2
+
+    def __init__(self, fnode, static_test=None):
+        self.fn = fnode
+        self.static_test = static_test or (lambda t: None)
+        self.comp_targets = set()
+        own = list(self.own(fnode.body))
+        for n in own:
+            if isinstance(n, (ast.ListComp, ast.SetComp, ast.DictComp, ast.GeneratorExp)):
+                for g in n.generators:
+                    for t in ast.walk(g.target):
+                        if isinstance(t, ast.Name):
+                            self.comp_targets.add(id(t))
+        a = fnode.args
+        self.params = [x.arg for x in a.posonlyargs + a.args + a.kwonlyargs] + \
+            [x.arg for x in (a.vararg, a.kwarg) if x is not None]
+        excluded = set()
+        for n in own:
+            if isinstance(n, (ast.Global, ast.Nonlocal)):
+                excluded.update(n.names)
+        for n in ast.walk(fnode):
+            if isinstance(n, ast.Nonlocal):
+                excluded.update(n.names)
+        hard, soft = self.touched(fnode.body)
+        self.locals = (set(self.params) | hard | soft) - excluded
+        self.flags = {}        # id(Name node) -> (node, state at the last visit)
+        self.killed_by = {}    # name -> 0 / 1 (the last certain unbinding)
+        self.loops = []
+
+    # -- scope ------------------------------------------------------------------------------------------------
+    @staticmethod
+    def own(body):
+        """the nodes of these statements that belong to the function's own scope (evaluated when it runs)"""
+        stack = list(body)
+        while stack:
+            n = stack.pop()
+            yield n
+            if isinstance(n, (ast.FunctionDef, ast.AsyncFunctionDef, ast.Lambda)):
+                a = n.args
+                stack.extend(getattr(n, "decorator_list", []))
+                stack.extend(a.defaults)
+                stack.extend(d for d in a.kw_defaults if d is not None)
+            elif isinstance(n, ast.ClassDef):
+                stack.extend(n.decorator_list)
+                stack.extend(n.bases)
+                stack.extend(k.value for k in n.keywords)
+            else:
+                stack.extend(ast.iter_child_nodes(n))
+
+    def touched(self, body):
+        """(names bound or deleted by these statements, names bound by `except ... as` only)"""
+        hard, soft = set(), set()
+        for n in self.own(body):
+            if isinstance(n, ast.Name) and isinstance(n.ctx, (ast.Store, ast.Del)) and id(n) not in self.comp_targets:
+                hard.add(n.id)
+            elif isinstance(n, (ast.FunctionDef, ast.AsyncFunctionDef, ast.ClassDef)):
+                hard.add(n.name)
+            elif isinstance(n, (ast.Import, ast.ImportFrom)):
+                for al in n.names:
+                    hard.add(al.asname or al.name.split(".")[0])
+            elif isinstance(n, ast.ExceptHandler) and n.name:
+                soft.add(n.name)
+            elif isinstance(n, (ast.MatchAs, ast.MatchStar)) and n.name:
+                hard.add(n.name)
+            elif isinstance(n, ast.MatchMapping) and n.rest:
+                hard.add(n.rest)
+        return hard, soft - hard
+
+    def exc_state(self, s, body):
+        """what an exception raised somewhere in `body` (entered in state s) can leave behind"""
+        if s is None:
+            return None
+        hard, soft = self.touched(body)
+        out = dict(s)
+        for v in hard:
+            if v in out:
+                out[v] = self.M
+        for v in soft:
+            if v in out and out[v] != self.U:
+                out[v] = self.M
+        return out
+
+    def join(self, *states):
+        acc = None
+        for s in states:
+            if s is None:
+                continue
+            acc = dict(s) if acc is None else {v: (acc[v] if acc[v] == s[v] else self.M) for v in acc}
+        return acc
+
+    # -- expressions (evaluation order; mutate s) ------------------------------------------------------------
+    def ex(self, n, s, shadow=frozenset()):
+        if n is None or s is None:
+            return
+        if isinstance(n, ast.Name):
+            if n.id in self.locals and n.id not in shadow:
+                if isinstance(n.ctx, ast.Load):
+                    self.flags[id(n)] = (n, s[n.id])
+                elif isinstance(n.ctx, ast.Store):
+                    s[n.id] = self.B
+                else:
+                    self.flags[id(n)] = (n, s[n.id])
+                    s[n.id] = self.U
+                    self.killed_by[n.id] = 1
+            return
+        if isinstance(n, ast.NamedExpr):
+            self.ex(n.value, s, shadow)
+            if n.target.id in self.locals:
+                s[n.target.id] = self.B
+            return
+        if isinstance(n, ast.BoolOp):
+            self.ex(n.values[0], s, shadow)
+            acc = dict(s)
+            for v in n.values[1:]:
+                self.ex(v, s, shadow)
+                acc = self.join(acc, s)
+            s.update(acc)
+            return
+        if isinstance(n, ast.IfExp):
+            self.ex(n.test, s, shadow)
+            a, b = dict(s), dict(s)
+            self.ex(n.body, a, shadow)
+            self.ex(n.orelse, b, shadow)
+            s.update(self.join(a, b))
+            return
+        if isinstance(n, (ast.ListComp, ast.SetComp, ast.DictComp, ast.GeneratorExp)):
+            gens = n.generators
+            self.ex(gens[0].iter, s, shadow)
+            inner = set(shadow)
+            for g in gens:
+                inner.update(t.id for t in ast.walk(g.target) if isinstance(t, ast.Name))
+            walrus = {w.target.id for w in ast.walk(n) if isinstance(w, ast.NamedExpr)} & self.locals
+            for w in walrus:
+                s[w] = self.M
+            if not isinstance(n, ast.GeneratorExp):
+                s2, inner = dict(s), frozenset(inner)
+                for k, g in enumerate(gens):
+                    if k:
+                        self.ex(g.iter, s2, inner)
+                    for c in g.ifs:
+                        self.ex(c, s2, inner)
+                for part in ([n.key, n.value] if isinstance(n, ast.DictComp) else [n.elt]):
+                    self.ex(part, s2, inner)
+                for w in walrus:
+                    s[w] = self.M
+            return
+        if isinstance(n, ast.Lambda):
+            for d in n.args.defaults + [d for d in n.args.kw_defaults if d is not None]:
+                self.ex(d, s, shadow)
+            return
+        if isinstance(n, ast.Dict):
+            for k, v in zip(n.keys, n.values):
+                self.ex(k, s, shadow)
+                self.ex(v, s, shadow)
+            return
+        for c in ast.iter_child_nodes(n):
+            self.ex(c, s, shadow)
+
+    # -- statements (return the state after, None: not reached) ---------------------------------------------
+    def block(self, body, s):
+        for st in body:
+            if s is None:
+                return None
+            s = self.stmt(st, s)
+        return s
+
+    def bind(self, name, s):
+        if name in self.locals:
+            s[name] = self.B
+
+    def stmt(self, st, s):
+        if isinstance(st, ast.Expr):
+            self.ex(st.value, s)
+            return s
+        if isinstance(st, ast.Assign):
+            self.ex(st.value, s)
+            for t in st.targets:
+                self.ex(t, s)
+            return s
+        if isinstance(st, ast.AugAssign):
+            if isinstance(st.target, ast.Name):
+                if st.target.id in self.locals:
+                    self.flags[id(st.target)] = (st.target, s[st.target.id])
+                self.ex(st.value, s)
+                self.bind(st.target.id, s)
+            else:
+                self.ex(st.target, s)
+                self.ex(st.value, s)
+            return s
+        if isinstance(st, ast.AnnAssign):
+            if st.value is not None:
+                self.ex(st.value, s)
+                self.ex(st.target, s)
+            return s
+        if isinstance(st, ast.Delete):
+            for t in st.targets:
+                self.ex(t, s)
+            return s
+        if isinstance(st, ast.Return):
+            self.ex(st.value, s)
+            return None
+        if isinstance(st, ast.Raise):
+            self.ex(st.exc, s)
+            self.ex(st.cause, s)
+            return None
+        if isinstance(st, (ast.Pass, ast.Global, ast.Nonlocal)):
+            return s
+        if isinstance(st, ast.Assert):
+            self.ex(st.test, s)
+            t = dict(s)
+            self.ex(st.msg, t)
+            return s
+        if isinstance(st, (ast.Break, ast.Continue)):
+            if self.loops:
+                self.loops[-1]["breaks" if isinstance(st, ast.Break) else "conts"].append(dict(s))
+            return None
+        if isinstance(st, (ast.Import, ast.ImportFrom)):
+            for al in st.names:
+                self.bind(al.asname or al.name.split(".")[0], s)
+            return s
+        if isinstance(st, (ast.FunctionDef, ast.AsyncFunctionDef)):
+            for d in st.decorator_list + st.args.defaults + [d for d in st.args.kw_defaults if d is not None]:
+                self.ex(d, s)
+            self.bind(st.name, s)
+            return s
+        if isinstance(st, ast.ClassDef):
+            for d in st.decorator_list + st.bases + [k.value for k in st.keywords]:
+                self.ex(d, s)
+            self.bind(st.name, s)
+            return s
+        if isinstance(st, ast.If):
+            self.ex(st.test, s)
+            v = self.static_test(st.test)
+            a = None if v is False else self.block(st.body, dict(s))
+            b = None if v is True else self.block(st.orelse, dict(s))
+            return self.join(a, b)
+        if isinstance(st, (ast.While, ast.For, ast.AsyncFor)):
+            return self.loop(st, s)
+        if isinstance(st, (ast.With, ast.AsyncWith)):
+            swallowed = self.exc_state(s, [st])
+            for it in st.items:
+                self.ex(it.context_expr, s)
+                self.ex(it.optional_vars, s)
+            out = self.block(st.body, s)
+            # __exit__ may swallow an exception raised anywhere in the body
+            return self.join(out, swallowed)
+        if isinstance(st, (ast.Try, getattr(ast, "TryStar", ast.Try))):
+            return self.try_(st, s)
+        # anything else (match, ...): no verdicts inside; whatever it binds or deletes is unknown afterwards
+        hard, soft = self.touched([st])
+        for v in hard | soft:
+            if v in s:
+                s[v] = self.M
+        return s
+
+    def loop(self, st, s):
+        is_for = not isinstance(st, ast.While)
+        if is_for:
+            self.ex(st.iter, s)
+        head = dict(s)
+        forever = (not is_for) and isinstance(st.test, ast.Constant) and st.test.value is True
+        while True:
+            ctx = {"breaks": [], "conts": []}
+            self.loops.append(ctx)
+            h = dict(head)
+            if is_for:
+                b = dict(h)
+                self.ex(st.target, b)
+            else:
+                self.ex(st.test, h)
+                b = dict(h)
+            out = self.block(st.body, b)
+            self.loops.pop()
+            new = self.join(head, out, *ctx["conts"])
+            if new == head:
+                break
+            head = new
+        normal = None if forever else h
+        return self.join(self.block(st.orelse, normal), *ctx["breaks"])
+
+    def try_(self, st, s):
+        marks = [(c, len(c["breaks"]), len(c["conts"])) for c in self.loops[-1:]]
+        exc_in = self.exc_state(s, st.body)
+        s0 = dict(s)
+        body_out = self.block(st.body, dict(s))
+        outs = [self.block(st.orelse, body_out)]
+        for h in st.handlers:
+            hs = dict(exc_in)
+            self.ex(h.type, hs)
+            hm = [(c, len(c["breaks"]), len(c["conts"])) for c in self.loops[-1:]]
+            if h.name and h.name in self.locals:
+                hs[h.name] = self.B
+            ho = self.block(h.body, hs)
+            if h.name and h.name in self.locals:
+                self.killed_by[h.name] = 0
+                if ho is not None:
+                    ho[h.name] = self.U
+                for c, nb, nc in hm:        # break / continue out of the handler: the name is deleted as well
+                    for t in c["breaks"][nb:] + c["conts"][nc:]:
+                        t[h.name] = self.U
+            outs.append(ho)
+        normal = self.join(*outs)
+        if not st.finalbody:
+            return normal
+        everything = st.body + st.orelse + [x for h in st.handlers for x in h.body] + list(st.handlers)
+        out = self.block(st.finalbody, None if normal is None else dict(normal))
+        # the states in which the `finally:` part can run: the normal ones and whatever an exception / return left
+        self.block(st.finalbody, self.join(normal, self.exc_state(s0, everything)))
+        fhard, fsoft = self.touched(st.finalbody)
+        for c, nb, nc in marks:             # break / continue through the `finally:` part
+            for t in c["breaks"][nb:] + c["conts"][nc:]:
+                for v in fhard | fsoft:
+                    if v in t:
+                        t[v] = self.M
+        return out
+
+    def run(self):
+        s = {v: (self.B if v in self.params else self.U) for v in self.locals}
+        self.block(self.fn.body, s)
+        out = []
+        for node, state in self.flags.values():
+            if state == self.U:
+                out.append((node.id, node.lineno, self.killed_by.get(node.id, 2)))
+        return sorted(set(out), key=lambda r: (r[1], r[0]))
+
+
+def dead_local_loads(tree, static_test=None):
+    """[(qualified function name as in co_qualname, variable, line, cause)] for every function of the module"""
+    out = []
+
+    def walk(node, prefix, in_func):
+        for ch in ast.iter_child_nodes(node):
+            if isinstance(ch, (ast.FunctionDef, ast.AsyncFunctionDef)):
+                q = prefix + ch.name
+                for var, line, cause in DeadLoads(ch, static_test).run():
+                    out.append((q, var, line, cause))
+                walk(ch, q + ".<locals>.", True)
+            elif isinstance(ch, ast.ClassDef):
+                walk(ch, prefix + ch.name + ".", in_func)
+            else:
+                walk(ch, prefix, in_func)
+    walk(tree, "", False)
+    return out
 
 
 # ------------------------------------------------------------------------------------------------------------
@@ -1702,6 +2077,11 @@ def render_lean(facts):
     chunks("unboundFacts", "UnboundFact",
            [f"⟨{u['mod_id']}, {u['fn_id']}, {u['var_id']}, {b(u['audited'])}⟩  -- {u['mod']} {u['fn']} {u['var']}"
             for u in facts["maybe_unbound"]])
+    L.append("/-- every read of a local that is certainly unbound where it is read: module, function, variable, line, "
+             "cause (0 `except .. as`, 1 `del`, 2 never bound) -/")
+    chunks("currentDeadLoads", "DeadLoad",
+           [f"⟨{u['mod_id']}, {u['fn_id']}, {u['var_id']}, {u['line']}, {u['cause']}⟩  -- {u['mod']} {u['fn']} {u['var']}"
+            for u in facts.get("dead_loads", [])])
     L.append("/-- the facts of the current working tree -/")
     L.append("def current : Facts where")
     L.append(f"  mods := [{', '.join('m%d' % i for i in range(len(facts['modules'])))}]")
